@@ -38,7 +38,7 @@ theorem PersistK.set_fresh {s : St} {k v : Nat} (hn : s.find k = none) : Persist
 def RegOK (s s' : St) (o o' : Nat) : Prop :=
   HeapExt s.heap s'.heap ∧ PersistK s s' ∧ s'.find o = some o'
 
-theorem viaMemo_reg {idx : Index} {rec : Nat → St → M (Nat × St)}
+theorem viaMemo_reg {rec : Nat → St → M (Nat × St)}
     (hrec : ∀ a s a' s', rec a s = .ok (a', s') → RegOK s s' a a')
     {r : Option Nat} {s : St} {r' : Option Nat} {s' : St} (h : viaMemo rec r s = .ok (r', s')) :
     HeapExt s.heap s'.heap ∧ PersistK s s' ∧ (∀ a, r = some a → ∃ a', r' = some a' ∧ s'.find a = some a') := by
@@ -100,7 +100,7 @@ theorem subsetObj_reg (idx : Index) : ∀ (fuel o : Nat) (s : St) (o' : Nat) (s'
               have k1 : HeapExt s.heap s1.heap ∧ PersistK s s1 := by
                 by_cases hk : obj.kind.hasOther = true
                 · simp only [hk, if_true] at h1
-                  obtain ⟨a, b, _⟩ := viaMemo_reg (idx := idx) (subsetObj_reg idx fuel) h1
+                  obtain ⟨a, b, _⟩ := viaMemo_reg (subsetObj_reg idx fuel) h1
                   exact ⟨a, b⟩
                 · simp only [hk] at h1
                   simp only [Bool.false_eq_true, if_false, Except.ok.injEq, Prod.mk.injEq] at h1
@@ -109,7 +109,7 @@ theorem subsetObj_reg (idx : Index) : ∀ (fuel o : Nat) (s : St) (o' : Nat) (s'
               have k2 : HeapExt s1.heap s2.heap ∧ PersistK s1 s2 := by
                 by_cases hk : obj.kind.isDelta = true
                 · simp only [hk, if_true] at h2
-                  obtain ⟨a, b, _⟩ := viaMemo_reg (idx := idx) (subsetObj_reg idx fuel) h2
+                  obtain ⟨a, b, _⟩ := viaMemo_reg (subsetObj_reg idx fuel) h2
                   exact ⟨a, b⟩
                 · simp only [hk] at h2
                   simp only [Bool.false_eq_true, if_false, Except.ok.injEq, Prod.mk.injEq] at h2
